@@ -159,6 +159,19 @@ Theorem c10_copy_lookup : forall (D : Type) (L : layers D) ns k,
 Proof. exact @copy_lookup. Qed.
 Print Assumptions c10_copy_lookup.
 
+(** A {% render %} inside a {% render %}ed partial: the outer tag's arguments
+    and the outer partial's block scope are invisible as well (every copy
+    chains the root context's globals). *)
+Theorem c10_copy_copy_lookup : forall (D : Type) (L : layers D) ns1 b ns2 k,
+  NoDup (keys (w_tg (l_world L))) ->
+  st_lookup (ctx_copy (st_push (ctx_copy (build L) ns1) b) ns2) k =
+  first_some [assoc k ns2;
+              assoc k (w_args (l_world L)); assoc k (w_matter (l_world L));
+              assoc k (w_tg (l_world L)); assoc k (w_eg (l_world L));
+              builtin_get k].
+Proof. exact @copy_copy_lookup. Qed.
+Print Assumptions c10_copy_copy_lookup.
+
 (** data_unchanged.  For ANY sequence of chain operations — raw pushes and
     pops included — from the construction over ANY caller data, completed or
     aborted: the caller's four mappings are what they were.  In this model a
